@@ -89,6 +89,23 @@ class Target:
     def drop(self, dotted_name):
         return False
 
+    float_sensitive = False
+
+    def witness_constraints(self, ctx, st):
+        """extra constraints for witnesses / counter-models that are run natively.  For targets that
+        treat floats as reals: every real input is a multiple of 1/1024 with small magnitude, so all the
+        arithmetic of the run is exact in IEEE doubles and CPython must agree with the real-number model."""
+        if not self.float_sensitive:
+            return []
+        import z3 as _z3
+        out = []
+        for name, cst in ctx.inputs.items():
+            if isinstance(cst, _z3.ExprRef) and cst.sort().kind() == _z3.Z3_REAL_SORT:
+                out.append(_z3.IsInt(cst * 1024))
+                out.append(cst <= 4096)
+                out.append(cst >= -4096)
+        return out
+
     def cross_compare(self, sctx, sst, nctx, nst, model, concretize):
         """extra symbolic-vs-native comparisons for the per-path witness (list of problems)"""
         return []
